@@ -183,13 +183,19 @@ class H2Protocol:
             data = await self.stream_buffers[stream_id].pop(chunk_size)
             if data:
                 self.connection.send_data(stream_id, data)
-                await self._flush()
             else:
                 self.priority.block(stream_id)
 
-            if self.stream_buffers[stream_id].complete:
+            # The end of the stream is queued with its last data, before
+            # anything is awaited: the application is released as soon
+            # as the buffer is empty and may close the connection
+            # (e.g. during shutdown) while the data is being written.
+            complete = self.stream_buffers[stream_id].complete
+            if complete:
                 self.connection.end_stream(stream_id)
+            if data or complete:
                 await self._flush()
+            if complete:
                 del self.stream_buffers[stream_id]
                 self.priority.remove_stream(stream_id)
         except (h2.exceptions.StreamClosedError, KeyError, h2.exceptions.ProtocolError):
